@@ -15,7 +15,7 @@
    C06_partial: the attribute list of a node element (beyond NodeId) and its Value are decided by the
    correspondence run (model document = lxml reading of the written text) and by the independent-reader oracle. *)
 From Coq Require Import String Ascii List Bool Arith NArith ZArith.
-Require Import PyStr PyInt Sexp Xml M_C09 M_C08 Ns Table M_Parse M_Write T_Write T_Write2.
+Require Import PyStr PyInt Sexp Xml M_C09 M_C08 Ns Table M_Parse M_Write T_Write T_Write2 XmlL M_C08d M_ParseText M_WriteText T_WriteText T_ReadWritten.
 Import ListNotations.
 Open Scope char_scope.
 
@@ -67,6 +67,14 @@ Theorem C06_references_written_once : forall p k refs, regular p k refs ->
   length (flat_map (w_ref_elems p k in_use refs) W) = length (filter (fun t : triple => mem_nid (snd (fst t)) W || mem_nid (fst (fst t)) W) refs).
 Proof. exact refs_written_once. Qed.
 
+(* what an XML reader followed by the parser's document reader obtains from the written TEXT is exactly the document write_doc describes
+   (an empty NamespaceUris block is simply absent): the theorems about write_doc are theorems about what any reader sees *)
+Theorem C06_read_written : forall lm p w fname d, classes_ok p = true -> text_clean lm p w = true -> write_doc p w = Ok d ->
+  exists s, write_text lm p w = Ok s /\
+            read_doc fname s = Ok {| d_name := fname; d_uris := match d_uris d with Some ((_ :: _) as u) => Some u | _ => None end;
+                                     d_models := d_models d; d_aliases := d_aliases d; d_nodes := d_nodes d |}.
+Proof. exact read_written. Qed.
+
 Print Assumptions C06_refs_all.
 Print Assumptions C06_refs_filtered.
 Print Assumptions C06_unknown_namespace.
@@ -77,3 +85,4 @@ Print Assumptions C06_first_uri.
 Print Assumptions C06_regular_decidable.
 Print Assumptions C06_reference_elements.
 Print Assumptions C06_references_written_once.
+Print Assumptions C06_read_written.
